@@ -364,7 +364,8 @@ func runC08(r *Run, p *Prog) {
 				if isT {
 					want = fmt.Sprintf("const:%d", fc["Continues"])
 				}
-				r.Ob("B7", shortName(cm.Recv), "receive reports Continues exactly when the frame says so", rv.Ret.Pos(), (isT || isF) && strip(T.T(rv.Ret.Results[0])) == want, "")
+				r.Ob("B7", shortName(cm.Recv), "receive reports Continues exactly when the frame says so", rv.Ret.Pos(), (isT || isF) && strip(T.T(rv.Ret.Results[0])) == want,
+					fmt.Sprintf("a success return yields flags %s where the frame's continues member is %s: a generated client method with a more-sequence ends early or never ends", strip(T.T(rv.Ret.Results[0])), map[bool]string{true: "known (" + want + " expected)", false: "not tested on this path"}[isT || isF]))
 			}
 		}
 	})
